@@ -9,7 +9,7 @@
 (* the rest of the trace is still examined.  The POSTCONDITION checks that *)
 (* every line was consumed.                                                *)
 (***************************************************************************)
-EXTENDS Exchange, FramingDecision, Coding, Json, IOUtils, TLC
+EXTENDS Exchange, FramingDecision, Coding, Json, IOUtils, TLC, TraceUtil
 
 Rec == ndJsonDeserialize(IOEnv.TRACE)
 
@@ -17,7 +17,7 @@ VARIABLES l, sid
 tvars == <<s, st, l, sid>>
 
 Report(line, id, sc, V) ==
-  \A g \in V : PrintT(<<"VIOL", line, id, PropertyOf(g, sc), g>>)
+  \A g \in V : Viol(line, id, PropertyOf(g, sc), g, "")
 
 TraceInit ==
   /\ l = 1
